@@ -25,6 +25,11 @@ RULE = (
     '4 x 22 x 2 x 2048 x 2 of them (exhaustive), quick takes per (origin,target,scatter) stratum a seeded sample of '
     'subsets (three densities + hand-picked minimal sets +- one coordinate). Values are random per configuration. '
     'A case is non-trivial when it reaches convert() on real data (all do); distinct = distinct configuration. '
+    'Coordinate ALIGNMENT is a further dimension: each configuration (every one in thorough, 60 % in quick) is run a '
+    'second time with supplied coordinates unaligned — coords.set_aligned(name, False) on a random non-empty subset of '
+    'the supplied ones (all of them / exactly the inelastic energies / random) or the pixel dimension sliced away '
+    "(data['spectrum', i], which leaves every per-pixel coordinate unaligned) — for DataArray and Dataset; the "
+    'alignment dimension is sampled, the aligned space is what is exhaustive. '
     'In addition every (origin incl. an unsupported one, target, scatter, mode) is compared for conversion_graph '
     'and every public graph factory x argument for the factory models. An extra stream outside the quantifier '
     '(some of Qx/Qy/Qz supplied; unsupported origin dspacing) is compared with the literal graph_for model only. '
@@ -32,6 +37,9 @@ RULE = (
     'which kernel) is compared with the literal model, and the literal and the recursive model must coincide.'
 )
 ASSUMPTIONS = [
+    'presence is independent of alignment: scipp.transform_coords takes a coordinate from `da.coords` whether or not it '
+    'is aligned (`_is_in_coords`: `name in da.coords`), so the presence predicate P of the model (and of the oracle) is '
+    '"in coords", aligned or not; validated by the alignment dimension of the correspondence',
     'scipp.transform_coords resolves a graph as transcribed from scipp/coords/graph.py (present coordinate -> fetch, '
     'else its rule, else KeyError) and calls each kernel with the values of its dependencies; validated by the '
     'exhaustive correspondence (bitwise equality of the target coordinate with the model derivation evaluated with '
@@ -153,15 +161,31 @@ def make_var(name, val, origin=None):
     return sc.array(dims=['spectrum'], values=val, unit=UNITS[name])
 
 
-def make_data(origin, present, vals, container):
+def make_data(origin, present, vals, container, align=('all',)):
     import scipp as sc
 
     da = sc.DataArray(sc.array(dims=['spectrum', origin], values=vals['data'], unit='counts'))
     for n in [origin, *AUX, *present]:
         da.coords[n] = make_var(n, vals[n], origin)
-    if container == 'Dataset':
-        return sc.Dataset({'a': da, 'b': da * sc.scalar(2.0)})
-    return da
+    data = sc.Dataset({'a': da, 'b': da * sc.scalar(2.0)}) if container == 'Dataset' else da
+    if align[0] == 'set':      # explicitly unaligned coordinates
+        for i, n in enumerate(ELEVEN):
+            if align[1] >> i & 1 and n in data.coords:
+                data.coords.set_aligned(n, False)
+    elif align[0] == 'slice':  # slicing the pixel dimension away leaves every per-pixel coordinate unaligned
+        data = data['spectrum', align[1]]
+    return data
+
+
+PER_PIXEL = ('position', 'scattered_beam', 'L2', 'Ltotal', 'two_theta', 'final_energy', 'Qx', 'Qy', 'Qz', 'data')
+
+
+def sliced_values(vals, align):
+    """the values the oracle sees: for a sliced object only the selected pixel"""
+    if align[0] != 'slice':
+        return vals
+    i = align[1]
+    return {n: (v[i:i + 1] if n in PER_PIXEL else v) for n, v in vals.items()}
 
 
 def canon(var):
@@ -360,7 +384,7 @@ def shaped(name, val):
 
     val = np.asarray(val, dtype=float)
     if name in ('position', 'scattered_beam'):
-        return val.reshape(NPIX, 1, 3)
+        return val.reshape(-1, 1, 3)
     if name in ('source_position', 'sample_position', 'incident_beam'):
         return val.reshape(1, 1, 3)
     if name in ('u_matrix', 'b_matrix', 'sample_rotation'):
@@ -369,7 +393,7 @@ def shaped(name, val):
         return val.reshape(1, NX)
     if val.ndim == 0:
         return val.reshape(1, 1)
-    return val.reshape(NPIX, 1)
+    return val.reshape(-1, 1)
 
 
 def oracle_expect(origin, target, scatter, present, vals):
@@ -476,10 +500,11 @@ def run_config(T: Tables, cfg, model_line, seed):
     returns dict(impl=…, model=…, agree=bool, notes=[…], viol=[(key, what)])"""
     import scippneutron as scn
 
-    idx, origin, target, scatter, mask, container, extras, kind = cfg
+    idx, origin, target, scatter, mask, container, extras, kind, align = cfg
     present = [n for i, n in enumerate(ELEVEN) if mask >> i & 1]
     vals = make_values([seed, idx])
-    data = make_data(origin, [*present, *extras], vals, container)
+    data = make_data(origin, [*present, *extras], vals, container, align)
+    vals = sliced_values(vals, align)
     out = {'viol': [], 'hist': []}
     # --- real code
     try:
@@ -544,6 +569,8 @@ def run_config(T: Tables, cfg, model_line, seed):
     # --- oracle: the property statement on the real outcome
     exp, why, mode = oracle_expect(origin, target, scatter, present, vals)
     out['hist'].append(f'{container}:{"ok" if not isinstance(c_impl, str) else c_impl}:{why}')
+    if align[0] != 'all':
+        out['hist'].append(f'alignment:{align[0]}:{"ok" if not isinstance(c_impl, str) else c_impl}:{why}')
     if isinstance(exp, str):
         if c_impl != 'err:runtime':
             out['viol'].append((f'C02:{why}-not-rejected',
@@ -732,9 +759,29 @@ def configs(ctx, T, targets, origins=ORIGINS):
                     for c in ('DataArray', 'Dataset'):
                         if ctx.quick and c == 'Dataset' and ctx.rng.random() < 0.5:
                             continue
-                        out.append((idx, o, t, s, m, c, (), 'q'))
+                        out.append((idx, o, t, s, m, c, (), 'q', ('all',)))
                         idx += 1
+                        # the same configuration with some supplied coordinates UNALIGNED (set_aligned(False) on a
+                        # random non-empty subset of the supplied ones, or the pixel dimension sliced away)
+                        if m and (not ctx.quick or ctx.rng.random() < 0.6):
+                            out.append((idx, o, t, s, m, c, (), 'q', random_alignment(ctx.rng, m)))
+                            idx += 1
     return out
+
+
+def random_alignment(rng, m):
+    if rng.random() < 0.35:
+        return ('slice', rng.randrange(NPIX))
+    um = 0
+    while um == 0:
+        r = rng.random()
+        if r < 0.3:
+            um = m                                   # every supplied coordinate unaligned
+        elif r < 0.6 and m & 0b11000000000:
+            um = m & 0b11000000000                   # exactly the inelastic energies
+        else:
+            um = m & rng.getrandbits(11)
+    return ('set', um)
 
 
 def extra_configs(ctx, T, targets, n):
@@ -748,9 +795,9 @@ def extra_configs(ctx, T, targets, n):
         if rng.random() < 0.7 and qtargets:
             ex = tuple(q for q in ('Qx', 'Qy', 'Qz') if rng.random() < 0.5)
             out.append((idx, rng.choice(['tof', 'wavelength']), rng.choice(qtargets), True, m,
-                        rng.choice(['DataArray', 'Dataset']), ex, 'x'))
+                        rng.choice(['DataArray', 'Dataset']), ex, 'x', ('all',)))
         else:
-            out.append((idx, 'dspacing', rng.choice(targets), rng.random() < 0.7, m, rng.choice(['DataArray', 'Dataset']), (), 'x'))
+            out.append((idx, 'dspacing', rng.choice(targets), rng.random() < 0.7, m, rng.choice(['DataArray', 'Dataset']), (), 'x', ('all',)))
         idx += 1
     return out
 
@@ -760,7 +807,7 @@ def model_lines(ctx, T, cfgs):
     lines = [
         f'c02.convert {T.ncode[o]} {T.ncode[t]} {1 if s else 0} {m} '
         + ','.join([str(T.ncode[o]), extras, *[str(T.ncode[x]) for x in ex]])
-        for (_, o, t, s, m, _, ex, _) in cfgs
+        for (_, o, t, s, m, _, ex, _, _) in cfgs
     ]
     out = []
     step = 200000
@@ -914,11 +961,13 @@ def correspond(ctx):
     viols = []
     used_kernels = set()
     for cfg, line, r in zip(cfgs, lines, results):
-        idx, o, t, s, m, c, ex, kind = cfg
+        idx, o, t, s, m, c, ex, kind, al = cfg
         present = [n for i, n in enumerate(ELEVEN) if m >> i & 1]
         case = {'origin': o, 'target': t, 'scatter': s, 'present': present, 'container': c, 'vseed': [ctx.seed, idx],
-                'extras': list(ex), 'kind': kind}
-        ctx.case((o, t, s, m, c, ex), True, sample={**case, 'impl': list(r['impl']), 'model': line[:160]})
+                'extras': list(ex), 'kind': kind, 'align': list(al),
+                'unaligned': ([n for i, n in enumerate(ELEVEN) if al[1] >> i & 1 and m >> i & 1] if al[0] == 'set'
+                              else 'per-pixel coordinates (sliced)' if al[0] == 'slice' else [])}
+        ctx.case((o, t, s, m, c, ex, al), True, sample={**case, 'impl': list(r['impl']), 'model': line[:160]})
         for h in r['hist']:
             ctx.count(h)
         if 'crash' in r:
@@ -957,14 +1006,15 @@ def oracle(ctx, deep):
         p = rng.choice([0.25, 0.5, 0.8])
         m = sum(1 << j for j in range(11) if rng.random() < p)
         cfgs.append((10_000_000 + i, rng.choice(ORIGINS), rng.choice(targets), rng.random() < 0.5, m,
-                     rng.choice(['DataArray', 'Dataset']), (), 'q'))
+                     rng.choice(['DataArray', 'Dataset']), (), 'q',
+                     random_alignment(rng, m) if m and rng.random() < 0.5 else ('all',)))
     lines = model_lines(ctx, T, cfgs)
     results = _run(ctx, T, cfgs, lines, int(os.environ.get('VERIF_WORKERS', '4' if ctx.quick else '12')))
     for cfg, r in zip(cfgs, results):
-        idx, o, t, s, m, c, ex, kind = cfg
+        idx, o, t, s, m, c, ex, kind, al = cfg
         present = [nm for i, nm in enumerate(ELEVEN) if m >> i & 1]
         case = {'origin': o, 'target': t, 'scatter': s, 'present': present, 'container': c, 'vseed': [ctx.seed, idx],
-                'extras': [], 'kind': 'q'}
+                'extras': [], 'kind': 'q', 'align': list(al)}
         ctx.case(('oracle', o, t, s, m, c, idx), True)
         for key, what in r['viol']:
             ctx.violation(key, what, case)
@@ -981,7 +1031,8 @@ def replay(ctx, payload):
     T, _ = _tables(ctx)
     m = mask_of(w['present'])
     seed, idx = w['vseed']
-    cfg = (idx, w['origin'], w['target'], bool(w['scatter']), m, w['container'], tuple(w.get('extras', ())), w.get('kind', 'q'))
+    cfg = (idx, w['origin'], w['target'], bool(w['scatter']), m, w['container'], tuple(w.get('extras', ())), w.get('kind', 'q'),
+           tuple(w.get('align', ('all',))))
     line = model_lines(ctx, T, [cfg])[0]
     r = run_config(T, cfg, line, seed)
     for key, what in r['viol']:
